@@ -1379,6 +1379,19 @@ impl<'a, 'b, W: Write> Serializer for &'a mut YamlSerializer<'b, W> {
         // Emit the variant mapping on the next line indented one level. Also, do not insert
         // a space after the colon when the value may itself be a mapping; instead, defer
         // space insertion to the value serializer via pending_space_after_colon.
+        if self.in_flow > 0 {
+            // Inside a flow collection the variant is written as the flow mapping it is:
+            // `{key: {Variant: v}}` (`{key: Variant: v}` is not YAML), `[{Variant: v}]`.
+            self.write_space_if_pending()?;
+            self.out.write_str("{")?;
+            self.write_plain_or_quoted(variant)?;
+            self.out.write_str(":")?;
+            self.pending_space_after_colon = true;
+            self.at_line_start = false;
+            value.serialize(&mut *self)?;
+            self.out.write_str("}")?;
+            return Ok(());
+        }
         self.write_anchor_before_variant()?;
         if self.pending_space_after_colon {
             // consume the pending space request and start a new line
@@ -1581,6 +1594,20 @@ impl<'a, 'b, W: Write> Serializer for &'a mut YamlSerializer<'b, W> {
         // Same three positions as for struct variants: value of a mapping key (the label goes
         // to the next line, one level under the key), element after a list dash (the label is
         // inline, the elements two levels under the dash), or a line of its own.
+        if self.in_flow > 0 {
+            // Inside a flow collection: `{Variant: [a, b]}`.
+            self.write_space_if_pending()?;
+            self.out.write_str("{")?;
+            self.write_plain_or_quoted(variant)?;
+            self.out.write_str(": [")?;
+            self.at_line_start = false;
+            return Ok(TupleVariantSer {
+                ser: self,
+                depth: 0,
+                flow: true,
+                first: true,
+            });
+        }
         self.write_anchor_before_variant()?;
         let depth_next = if self.pending_space_after_colon {
             self.pending_space_after_colon = false;
@@ -1606,6 +1633,8 @@ impl<'a, 'b, W: Write> Serializer for &'a mut YamlSerializer<'b, W> {
         Ok(TupleVariantSer {
             ser: self,
             depth: depth_next,
+            flow: false,
+            first: true,
         })
     }
 
@@ -1728,6 +1757,20 @@ impl<'a, 'b, W: Write> Serializer for &'a mut YamlSerializer<'b, W> {
         // If we are the value of a mapping key, YAML forbids keeping a nested mapping
         // on the same line (e.g., "key: Variant:"). Move the variant mapping to the next line
         // indented under the parent mapping's base depth.
+        if self.in_flow > 0 {
+            // Inside a flow collection: `{Variant: {field: value}}`.
+            self.write_space_if_pending()?;
+            self.out.write_str("{")?;
+            self.write_plain_or_quoted(variant)?;
+            self.out.write_str(": {")?;
+            self.at_line_start = false;
+            return Ok(StructVariantSer {
+                ser: self,
+                depth: 0,
+                flow: true,
+                first: true,
+            });
+        }
         self.write_anchor_before_variant()?;
         let _was_inline_value = !self.at_line_start;
         if self.pending_space_after_colon {
@@ -1748,6 +1791,8 @@ impl<'a, 'b, W: Write> Serializer for &'a mut YamlSerializer<'b, W> {
             return Ok(StructVariantSer {
                 ser: self,
                 depth: depth_next,
+                flow: false,
+                first: true,
             });
         }
         // Otherwise (top-level or sequence context), emit the variant name at current depth.
@@ -1767,6 +1812,8 @@ impl<'a, 'b, W: Write> Serializer for &'a mut YamlSerializer<'b, W> {
         Ok(StructVariantSer {
             ser: self,
             depth: depth_next,
+            flow: false,
+            first: true,
         })
     }
 }
@@ -2124,12 +2171,23 @@ pub struct TupleVariantSer<'a, 'b, W: Write> {
     ser: &'a mut YamlSerializer<'b, W>,
     /// Target indentation depth for the fields.
     depth: usize,
+    /// Written inside a flow collection as `{Variant: [a, b]}`.
+    flow: bool,
+    /// Whether the next field is the first (comma handling in flow style).
+    first: bool,
 }
 impl<'a, 'b, W: Write> SerializeTupleVariant for TupleVariantSer<'a, 'b, W> {
     type Ok = ();
     type Error = Error;
 
     fn serialize_field<T: ?Sized + Serialize>(&mut self, value: &T) -> Result<()> {
+        if self.flow {
+            if !self.first {
+                self.ser.out.write_str(", ")?;
+            }
+            self.first = false;
+            return value.serialize(&mut *self.ser);
+        }
         self.ser.write_indent(self.depth)?;
         self.ser.out.write_str("- ")?;
         self.ser.at_line_start = false;
@@ -2139,6 +2197,10 @@ impl<'a, 'b, W: Write> SerializeTupleVariant for TupleVariantSer<'a, 'b, W> {
         value.serialize(&mut *self.ser)
     }
     fn end(self) -> Result<()> {
+        if self.flow {
+            self.ser.out.write_str("]}")?;
+            return Ok(());
+        }
         self.ser.after_dash_depth = None;
         Ok(())
     }
@@ -2369,6 +2431,10 @@ pub struct StructVariantSer<'a, 'b, W: Write> {
     ser: &'a mut YamlSerializer<'b, W>,
     /// Target indentation depth for the fields.
     depth: usize,
+    /// Written inside a flow collection as `{Variant: {field: value}}`.
+    flow: bool,
+    /// Whether the next field is the first (comma handling in flow style).
+    first: bool,
 }
 impl<'a, 'b, W: Write> SerializeStructVariant for StructVariantSer<'a, 'b, W> {
     type Ok = ();
@@ -2380,6 +2446,16 @@ impl<'a, 'b, W: Write> SerializeStructVariant for StructVariantSer<'a, 'b, W> {
         value: &T,
     ) -> Result<()> {
         let text = scalar_key_to_string(&key, self.ser.yaml_12)?;
+        if self.flow {
+            if !self.first {
+                self.ser.out.write_str(", ")?;
+            }
+            self.first = false;
+            self.ser.out.write_str(&text)?;
+            self.ser.out.write_str(":")?;
+            self.ser.pending_space_after_colon = true;
+            return value.serialize(&mut *self.ser);
+        }
         self.ser.write_indent(self.depth)?;
         self.ser.out.write_str(&text)?;
         // Defer spacing/newline decision to the value serializer similarly to map entries.
@@ -2393,6 +2469,9 @@ impl<'a, 'b, W: Write> SerializeStructVariant for StructVariantSer<'a, 'b, W> {
         result
     }
     fn end(self) -> Result<()> {
+        if self.flow {
+            self.ser.out.write_str("}}")?;
+        }
         Ok(())
     }
 }
